@@ -307,6 +307,24 @@ class State:
         m = self.map("f_" + fname, self.ctx.sort_of(t))
         self.heap["f_" + fname] = z3.Store(m, obj.z, self.coerce(val, t).z)
 
+    def init_field(self, obj: V, fname: str, val: V):
+        """First initialisation of a field of an object allocated on this path.  Cells of unallocated references are
+        unconstrained (every quantified heap fact is guarded by `o < alloc` or by membership), so the content an
+        object gets at allocation is *assumed* on the current maps instead of being stored: allocation leaves the
+        maps - and therefore every fact about pre-existing objects - syntactically unchanged."""
+        if self.qmode is not None:
+            return self.write_field(obj, fname, val)
+        ft = self.field_type(fname)
+        t = ft[1] if ft[0] == "opt" else ft
+        if ft[0] == "opt":
+            isnone = z3.BoolVal(True) if val.t[0] == "none" else (val.none if val.none is not None else z3.BoolVal(False))
+            self.assume(self.select(self.map("fnone_" + fname, z3.BoolSort()), obj.z) == isnone)
+            if val.t[0] == "none":
+                return
+        elif val.t[0] == "none":
+            raise Unsupported(f"None stored into non-optional field {fname}")
+        self.assume(self.select(self.map("f_" + fname, self.ctx.sort_of(t)), obj.z) == self.coerce(val, t).z)
+
     def coerce(self, val: V, t):
         """int -> float coercion where a float is expected (python semantics of arithmetic/comparison)."""
         if t[0] == "float" and val.t[0] in ("int", "bool"):
@@ -388,9 +406,16 @@ class State:
         self.type_tag(v)
         if length is None:
             length = z3.IntVal(0)
-        if elems is None:
-            elems = self.ctx.fresh_z("elems", z3.ArraySort(z3.IntSort(), self.ctx.sort_of(et)))
-        self.seq_set_content(v, length, elems)
+        if self.qmode is not None:
+            if elems is None:
+                elems = self.ctx.fresh_z("elems", z3.ArraySort(z3.IntSort(), self.ctx.sort_of(et)))
+            self.seq_set_content(v, length, elems)
+            return v
+        # fresh cell: its content is assumed, the maps are not modified (see init_field)
+        self.assume(self.select(self.map("len", z3.IntSort()), r) == length)
+        if elems is not None:
+            name = self.el_map_name(et)
+            self.assume(self.select(self.map(name, z3.ArraySort(z3.IntSort(), self.ctx.sort_of(et))), r) == elems)
         return v
 
 
